@@ -1708,6 +1708,20 @@ func (e *c05Eng) structVals(fr *c05Frame, st *c05State, rhs ast.Expr, lt types.T
 				v.addHi(k, 0)
 				vals[s] = v
 			}
+		} else if ak := e.aliasKeys(fr, r); len(ak) >= 2 {
+			// a copy of what a pointer with several possible targets points to (`state := *vt.savedSlot()`):
+			// each leaf has the bounds that hold for every target
+			for _, s := range leaves {
+				var vs []*c05Val
+				for _, t := range ak {
+					k := t + s
+					if _, ok := e.disp[k]; !ok {
+						e.disp[k] = strings.TrimPrefix(e.show(t)+s, "vt.")
+					}
+					vs = append(vs, e.valOf(st, k))
+				}
+				vals[s] = c05JoinVals(vs)
+			}
 		}
 	}
 	return vals
